@@ -230,12 +230,16 @@ fn check_shape(shape: &[usize]) -> (u64, u64, Vec<Viol>) {
                 lib_case(shape, &to, "ramp"),
             );
         }
-        // finite inputs give finite outputs: all-zero, sign-alternating, huge and tiny spectra
+        // finite inputs give finite, exact outputs: all-zero, sign-alternating, cancelling, huge, tiny and scaled-down spectra
         for (name, x) in [
             ("zeros", RefArray::zeros(shape)),
             ("alternating", RefArray::from_fn(shape, |f, _| if f % 2 == 0 { 1.5 } else { -2.0 })),
             ("huge", RefArray::from_fn(shape, |f, _| if f == cells / 2 { 1e300 } else { 0.0 })),
             ("tiny", RefArray::from_fn(shape, |f, _| if f == cells - 1 { 5e-324 } else { 0.0 })),
+            // mixed signs whose total is exactly 0 (e.g. observed minus expected counts)
+            ("cancelling", RefArray::from_fn(shape, |f, _| if f + 1 == cells && cells % 2 == 1 { 0.0 } else if f % 2 == 0 { (f / 2 + 1) as f64 } else { -((f / 2 + 1) as f64) })),
+            // an ordinary count spectrum scaled far below f64::EPSILON
+            ("scaled-1e-18", RefArray::from_fn(shape, |f, _| (f + 1) as f64 * 1e-18)),
         ] {
             evals += 1;
             let expect = x.project(&to);
